@@ -3,6 +3,7 @@ import Driver.C01
 import Driver.C02
 import Driver.C12Mon
 import Driver.Flow
+import Driver.C11
 open Kv
 
 structure DState where
@@ -16,6 +17,7 @@ def dispatch (st : DState) (prop : String) (l : Line) : DState × String :=
   | "C01" => (st, Drv.C01.step l)
   | "C02" => (st, Drv.C02.step l)
   | "C12" => (st, Drv.C12.step l)
+  | "C11" => (st, Drv.C11.step l)
   | "C04" => let (s, r) := Drv.Flow.step "C04" st.c04 l; ({ st with c04 := s }, r)
   | "C07" => let (s, r) := Drv.Flow.step "C07" st.c07 l; ({ st with c07 := s }, r)
   | _ => (st, "bad-op")
